@@ -13,6 +13,7 @@ from .c04 import recursion_free
 MOD = "swcgeom.transforms.neurolucida_asc"
 CONV = f"{MOD}.NeurolucidaAscToSwc"
 PARSER = f"{MOD}.Parser"
+LEXER = f"{MOD}.Lexer"
 
 
 def run(ctx, col, tier):
@@ -534,6 +535,8 @@ def errors(ctx, col):
 def anchored(ctx, col):
     """Statements that carry the clauses, matched three-way under one renaming per function."""
     repo = ctx.repo
+    col.guard(lexer_lines, ctx, col)
+    col.guard(colour_marker, ctx, col)
     conv = repo.get_def(f"{CONV}.from_ast")
     col.text_group("R-COUNTER", conv.qualname, conv, [
         ("frames are (syntax node, parent id, type); the walk starts at the document with no parent", ["stack = [(ast, -1, types.undefined)]",
@@ -613,3 +616,43 @@ def anchored(ctx, col):
         ("labels are compared case-folded", ["match str.upper(token.value):\n    case 'AXON' | 'DENDRITE':\n        self._parse_tree(root)\n    case 'COLOR':\n        self._parse_color(root)\n    case _:\n        raise LiteralTokenError(token, _any)"], "labels"),
         ("the document's closing bracket is required", ["token = self._assert_and_cunsume(TokenType.BRACKET_RIGHT)"], "doc-close"),
     ], fixed=("TokenType", "LiteralTokenError"))
+
+
+def lexer_lines(ctx, col):
+    """Comments: the rest of the line is consumed, and nothing else."""
+    repo = ctx.repo
+    d = repo.get_def(f"{LEXER}._read_line")
+    col.text_group("R-LEX", d.qualname, d, [
+        ("the rest of the current line is read only when the line is not over yet; an empty comment consumes nothing more",
+         ["if self.next_char != '\\n':\n    line = self.r.readline()\n    line = self.next_char + line\n    if line.endswith('\\n'):\n        line = line[:-1]\nelse:\n    line = ''"], "ln:rest"),
+        ("the position moves to the start of the next line", ["self.lineno += 1"], "ln:lineno"),
+        ("...", ["self.column = 1"], "ln:col"),
+        ("the first character of the next line is buffered", ["self.next_char = self.r.read(1)"], "ln:next"),
+        ("the comment text is returned", ["return line"], "ln:ret")])
+    # control dependence: a readline() must be under the test that the current line is not over
+    for c in own_nodes(d):
+        if isinstance(c, ast.Call) and isinstance(c.func, ast.Attribute) and c.func.attr == "readline":
+            x, guarded = repo.parent(c), False
+            while x is not None and x is not d.node:
+                if isinstance(x, ast.If) and "next_char" in norm_src(x.test) and ("'\\n'" in norm_src(x.test) or '"\\n"' in norm_src(x.test)):
+                    guarded = True
+                x = repo.parent(x)
+            col.check(guarded, "R-LEX", d.qualname, d.loc(c), "the stream is read on only when the comment's line is not over",
+                      "", f"`{norm_src(c)}` is executed whether or not the buffered character already ends the line: after an empty comment (`;` at the end of a line) "
+                      f"it swallows the whole next line of the document", stmt="ln:readline-guard", definite=True)
+
+
+def colour_marker(ctx, col):
+    """A colour marker is read and left out: it never becomes the point that later points hang on."""
+    repo = ctx.repo
+    for q in ("_parse_subtree", "_parse_tree", "_parse"):
+        d = repo.get_def(f"{PARSER}.{q}")
+        for a in own_nodes(d):
+            if isinstance(a, (ast.Assign, ast.AnnAssign, ast.NamedExpr)) and isinstance(getattr(a, "value", None), ast.Call) \
+                    and isinstance(a.value.func, ast.Attribute) and a.value.func.attr == "_parse_color":
+                col.bad("R-POINT", d.qualname, d.loc(a), "a colour marker does not become a link of the point chain",
+                        f"`{norm_src(a)[:70]}` makes the colour node the current chain end: the points that follow hang below a COLOR node, which the conversion "
+                        f"skips together with everything below it", stmt="colour-rebinding", definite=True)
+        n = sum(1 for c in own_nodes(d) if isinstance(c, ast.Call) and isinstance(c.func, ast.Attribute) and c.func.attr == "_parse_color")
+        if n:
+            col.ok("R-POINT", d.qualname, d.loc(), "colour markers are parsed for their brackets only", f"{n} call(s), result not kept", stmt="colour-calls")
